@@ -454,7 +454,7 @@ func (cx *Ctx) checkCanonicalizer(r *Report) {
 		_ = m
 	}
 	for fn := range ssaFuncsOf(pkg) {
-		if fn.Name() == "CreateSignature" || fn.Name() == "Sign" {
+		if fnName(fn) == "CreateSignature" || fnName(fn) == "Sign" {
 			for _, c := range callsIn(fn) {
 				if calleeOf(c) == can {
 					reached = true
